@@ -695,6 +695,17 @@ def compute_l2_key(
     request_l2: int,
     rk: GroupKeyEnvelope,
 ) -> bytes:
+    # The L1 and L2 keys can only be derived for a lower index so the envelope
+    # must be for the same or a later key than the one requested.
+    for idx in (request_l1, request_l2, rk.l1, rk.l2):
+        if idx < 0 or idx > 31:
+            raise ValueError(f"L1 and L2 index values must be between 0 and 31, got {idx}")
+
+    if rk.l1 < request_l1 or (rk.l1 == request_l1 and rk.l2 < request_l2):
+        raise ValueError(
+            f"Group key envelope for L1 {rk.l1} L2 {rk.l2} cannot be used to derive the key for L1 {request_l1} L2 {request_l2}"
+        )
+
     l1 = rk.l1
     l1_key = rk.l1_key
     l2 = rk.l2
